@@ -89,6 +89,7 @@ static void m_reset(void) {
         fprintf(stderr, "cache_new failed\n");
         _exit(2);
     }
+    g_probe_tbl = g_probe ? &C->table : NULL;
 }
 
 static bool m_enabled(int op) {
@@ -133,7 +134,12 @@ static void m_apply(int op) {
     m_opname(op, g_opbuf, sizeof(g_opbuf));
     op_begin(g_opbuf);
     stat_table_before(&C->table);
-    void *key = &KO[d.k][d.t];
+    /* bulk removal runs the destructors while the slots of entries already destroyed are still in place: a lookup from inside is
+     * not something the library supports there (it reads released nodes on the unchanged tree), so the probe is limited to
+     * single-entry displacements: overwrite, eviction, remove */
+    g_probe_tbl = (g_probe && d.kind != K_CLEAR) ? &C->table : NULL;
+    if (d.k == g_null_k) d.t = 0; /* NULL has no twin */
+    void *key = kptr(d.k, d.t);
     int i = (d.kind == K_PUT || d.kind == K_FIND || d.kind == K_REMOVE) ? ref_find(d.k) : -1;
     switch (d.kind) {
         case K_PUT: {
@@ -278,6 +284,7 @@ static void m_teardown(void) {
     struct aws_cache *c = C;
     C = NULL;
     if (esx_failed) return;
+    g_probe_tbl = NULL; /* no lookups in a table that is being dismantled */
     op_begin("destroy");
     for (int i = 0; i < nR; ++i) expect_displaced(R[i]);
     aws_cache_destroy(c);
@@ -294,15 +301,18 @@ int main(int argc, char **argv) {
     static const char *dname[4] = {"none", "key", "val", "both"};
     static const char *pname[3] = {"fifo", "lifo", "lru"};
     int rc = 0;
-    for (int nullv = 0; nullv < 2; ++nullv)
+    for (int variant = 0; variant < 4; ++variant) { /* 0: plain, 1: value v2 is NULL, 2: key k0 is NULL, 3: the value destructor looks keys up */
+    int nullv = variant == 1, nullk = variant == 2;
+    g_probe = variant == 3;
     for (int p = 0; p < 3; ++p)
         for (size_t mx = 1; mx <= 3; ++mx)
             for (int dm = 0; dm < 4; ++dm)
                 for (int hm = 0; hm < 3; ++hm) {
                     /* second pass: the same with value v2 stored as a NULL pointer (a cache must tell "present with a NULL
                      * value" from "absent"; added after a seeded change in the FIFO cache that did not) - both destructors, spread hash */
-                    if (nullv && !(dm == 3 && hm == 0)) continue;
+                    if ((nullv || nullk || g_probe) && !(dm == 3 && hm == 0)) continue;
                     g_null_v = nullv ? NV - 1 : -1;
+                    g_null_k = nullk ? 0 : -1; /* (added after a seeded change in the hash table's growth that lost entries with a NULL key) */
                     /* quick: destructors none/both, spread hash (+ the colliding hash at max_items 2).  thorough adds key-only / value-only destructors and, with
                      * both destructors, the two collision hash modes (their slot layouts multiply the state count). */
                     bool in_quick = ((dm == 0 || dm == 3) && hm == 0) || (dm == 3 && hm == 1 && mx == 2);
@@ -315,7 +325,7 @@ int main(int argc, char **argv) {
                     g_hmode = hm;
                     g_nk = NK;
                     g_nv = NV;
-                    snprintf(g_name, sizeof(g_name), "%s-m%zu-d%s-h%d-k%dv%d%s", pname[p], mx, dname[dm], hm, g_nk, g_nv, nullv ? "-nullv" : "");
+                    snprintf(g_name, sizeof(g_name), "%s-m%zu-d%s-h%d-k%dv%d%s", pname[p], mx, dname[dm], hm, g_nk, g_nv, nullv ? "-nullv" : nullk ? "-nullk" : g_probe ? "-probe" : "");
                     model.name = g_name;
                     build_ops();
                     model.nops = nops;
@@ -327,6 +337,7 @@ int main(int argc, char **argv) {
                     esx_run(&model);
         ESX_CYCLES(&model);
                 }
+    }
     v_finish();
     return (v_sh->viol_count || rc) ? 1 : 0;
 }
